@@ -32,9 +32,14 @@ def run_family(ck, fname, scs, propfn, keyprefix, what, hyp=False):
         # side conditions of the whole-run theorem: bit 1 says whether the scenario is inside the theorem's domain (no removal, no
         # reconciled SP, positive ladders); bit 0 (placement packages find their order as created) must hold on EVERY scenario of the
         # domain (outside it a runner removal may void an order before its placement is executed)
-        bad = [i for i, h in enumerate(hyps) if h == 2]
-        hd = {"in_theorem_domain": sum(1 for h in hyps if h >= 2), "in_domain_and_guard_holds": sum(1 for h in hyps if h == 3),
-              "guard_holds_any": sum(1 for h in hyps if h % 2 == 1)}
+        # bit 2: side condition of the acknowledgement-time theorem (C07_run_ack_after_latency), which has no domain restriction: every scenario
+        bad = [i for i, h in enumerate(hyps) if h % 4 == 2]
+        bad_ack = [i for i, h in enumerate(hyps) if h < 4]
+        hd = {"in_theorem_domain": sum(1 for h in hyps if h % 4 >= 2), "in_domain_and_guard_holds": sum(1 for h in hyps if h % 4 == 3),
+              "guard_holds_any": sum(1 for h in hyps if h % 2 == 1), "ack_guard_holds": len(hyps) - len(bad_ack)}
+        if bad_ack:
+            ck.broken.append({"kind": "hypothesis", "what": "run_ack_guard_b (hypothesis of C07_run_ack_after_latency) is false on scenario(s) of family " + fname,
+                              "first": bad_ack[:3], "scenarios": [{"index": i, "scenario": scs[i]} for i in bad_ack[:2]]})
         if bad:
             ck.broken.append({"kind": "hypothesis", "what": "run_guard_b (hypothesis of C04_run_conserves) is false on scenario(s) of family " + fname,
                               "first": bad[:3], "scenarios": [{"index": i, "scenario": scs[i]} for i in bad[:2]]})
